@@ -9,7 +9,8 @@ looks like a clash-renamed one, multi-dot and dot-less names, a directory and a 
 name), repeated objects, equal-but-distinct objects, the same node output wired to two workflow
 outputs, symlinked sources and (rarely) names pydra itself uses inside a job directory.
 
-Oracle (model free; every source has unique content, so a digest identifies its source):
+Oracle (model free; sources are identified by their position in the generated value; in 4 of 5 cases
+every source has unique content, in 1 of 5 most sources share one of two contents):
   * every file leaf of every workflow output lies inside the workflow's cache directory,
   * its digest equals the digest of the source at the same position of the generated value,
   * no destination path is shared by (or nested in the destination of) two distinct sources,
@@ -93,7 +94,7 @@ def gen_spec(rng, pool, depth=0):
     return {"t": kind, "v": kids}
 
 
-def gen_case(rng, reserved=False):
+def gen_case(rng, reserved=False, alike=False):
     hot = rng.sample(HOT, rng.randint(2, 3))
     if reserved:
         hot[0] = rng.choice(RESERVED)
@@ -121,6 +122,11 @@ def gen_case(rng, reserved=False):
         if not pool:
             pool = [(layout[0]["id"], layout[0]["kind"])] if layout else []
         specs.append(gen_spec(rng, pool) if pool else {"t": "lit", "v": 0})
+    if alike:
+        # distinct sources with byte-identical content (same-named logs of several nodes, empty files, equal masks)
+        for e in layout + [x for nw in news for x in nw]:
+            if rng.random() < 0.7:
+                e["alike"] = rng.randrange(2)
     return {"layout": layout, "news": news, "specs": specs,
             "wf": "Wdup" if rng.random() < 0.2 else "W3",
             "worker": "cf" if rng.random() < 0.07 else "debug"}
@@ -255,7 +261,7 @@ def run(ctx):
     quick = ctx.tier == "quick"
     rng = ctx.rng("gen")
     n = 150 if quick else 3000
-    cases = [gen_case(rng, reserved=(i % 25 == 7)) for i in range(n)]
+    cases = [gen_case(rng, reserved=(i % 25 == 7), alike=(i % 5 == 3)) for i in range(n)]
     per = 10 if quick else 40
     ctx.rule = ("generated workflows of 3 nodes returning nested list/tuple/dict values (depth <= 3) of File/Directory "
                 "objects over 2-4 source directories + node-made files with 2-3 shared base names; non-trivial = at least "
@@ -264,7 +270,7 @@ def run(ctx):
                    nproc=8 if quick else 16, timeout=900 if quick else 3300)
     ctx.record_all(res)
     ctx.assumptions = ["sources, cache and job directories are on one tmpfs (hard links possible); "
-                       "source identity is established by unique content"]
+                       "source identity is positional (generated value vs returned value); 1 case in 5 uses byte-identical content in distinct sources"]
 
 
 def replay(ctx, rep):
